@@ -154,6 +154,9 @@ func (ctx *Context) Run(value string) error {
 	return ctx.RunAfterParsed()
 }
 
+// IntType 能表示的最大值
+const maxIntType = IntType(^uint(0) >> 1)
+
 type spanByBegin []BufferSpan
 
 func (a spanByBegin) Len() int           { return len(a) }
@@ -354,7 +357,11 @@ func (ctx *Context) evaluate() {
 	// ctx := &e.Context
 	var details []BufferSpan
 	numOpCountAdd := func(count IntType) bool {
-		e.NumOpCount += count
+		if count > 0 && e.NumOpCount > maxIntType-count {
+			e.NumOpCount = maxIntType // 防止溢出后绕过算力上限
+		} else {
+			e.NumOpCount += count
+		}
 		if ctx.Config.OpCountLimit > 0 && e.NumOpCount > ctx.Config.OpCountLimit {
 			ctx.Error = errors.New("允许算力上限")
 			return true
